@@ -48,6 +48,7 @@ type Exec struct {
 	paramEnv      map[string]Val
 	boxed         map[*types.Var]bool
 	globalsSeen   map[string]bool
+	aliasDepth    int
 	globalFacts   []*Term
 	notes         map[string]bool
 	floatModel    string
